@@ -214,11 +214,16 @@ theorem step_inv (b : QBeh) (c c' : QCfg) (hs : StackOk c.stack) (h : step b c =
           rw [view_eq_viewS (st := .done :: r) (by rw [hst]; rfl)]
           exact .refl _
       | @iter key arg rest r hr =>
-        simp only [step, hst, Option.some.injEq] at h
-        subst h
-        refine ⟨shape_nextListener _ _ _ _ _ hr, ?_⟩
-        rw [view_nextListener, view_eq_viewS (st := r) (by rw [hst]; rfl)]
-        exact .refl _
+        simp only [step, hst] at h
+        split at h
+        · cases h
+          refine ⟨shape_nextListener _ _ _ _ _ hr, ?_⟩
+          rw [view_nextListener, view_eq_viewS (st := r) (by rw [hst]; rfl)]
+          exact .refl _
+        · cases h
+          refine ⟨.done hr, ?_⟩
+          rw [view_eq_viewS (st := .done :: r) (by rw [hst]; rfl)]
+          exact .refl _
       | @pred mode s rest kept idle k k' hk' hm =>
         simp only [step, hst] at h
         have hv : view c = viewS c (.proc mode (s :: rest) kept idle .pred :: .wait k :: k') :=
